@@ -77,3 +77,53 @@ Definition spe_log_check (global : bool) (N nu k : nat) (neighbors : list (list 
            (log : list (list nat * list (nat * nat))) : option nat :=
   first_bad (fun sp => if global then global_iter_ok_b N nu (fst sp) (snd sp)
                        else local_iter_ok_b N nu k neighbors (fst sp) (snd sp)) log 0.
+
+(* ====================================================================== *)
+(*  The same statements in terms of the SAMPLE IDS of the range handed to  *)
+(*  embed(): position i of [begin,end) designates sample `at_pos range i`  *)
+(*  (= begin[i]); spe_embedding calls                                       *)
+(*     callback.distance( *(begin + *ind1), *(begin + *ind2) )              *)
+(*  so the distance callback of an iteration must receive exactly the ids  *)
+(*  designated by the position pairs of that iteration.  The range may be  *)
+(*  any list (a sub-range of the data, permuted, offset ids, repeats).     *)
+(* ====================================================================== *)
+Definition at_pos (range : list nat) (i : nat) : nat := nth i range 0.
+Definition des_pair (range : list nat) (p : nat * nat) : nat * nat :=
+  (at_pos range (fst p), at_pos range (snd p)).
+
+Definition global_iter_des_ok (range : list nat) (N nu : nat) (perm : list nat)
+           (idps : list (nat * nat)) : Prop :=
+  exists ps, global_iter_ok N nu perm ps /\ idps = map (des_pair range) ps.
+
+Definition local_iter_des_ok (range : list nat) (N nu k : nat) (neighbors : list (list nat))
+           (perm : list nat) (idps : list (nat * nat)) : Prop :=
+  exists ps, local_iter_ok N nu k neighbors perm ps /\ idps = map (des_pair range) ps.
+
+Fixpoint forallb2 {A B} (f : A -> B -> bool) (l : list A) (l' : list B) : bool :=
+  match l, l' with
+  | [], [] => true
+  | a :: t, b :: t' => f a b && forallb2 f t t'
+  | _, _ => false
+  end.
+
+Definition global_iter_des_ok_b (range : list nat) (N nu : nat) (perm : list nat)
+           (idps : list (nat * nat)) : bool :=
+  let ps := combine (firstn nu perm) (firstn nu (skipn nu perm)) in
+  global_iter_ok_b N nu perm ps && list_eqb pair_eqb idps (map (des_pair range) ps).
+
+(* position a was paired with SOME of its first k neighbours nb, and the callback got (begin[a], begin[nb]) *)
+Definition local_pair_des_b (range : list nat) (k : nat) (neighbors : list (list nat))
+           (a : nat) (idp : nat * nat) : bool :=
+  Nat.eqb (fst idp) (at_pos range a) &&
+  existsb (fun nb => Nat.eqb (at_pos range nb) (snd idp)) (firstn k (nth a neighbors [])).
+
+Definition local_iter_des_ok_b (range : list nat) (N nu k : nat) (neighbors : list (list nat))
+           (perm : list nat) (idps : list (nat * nat)) : bool :=
+  is_perm_b N perm && Nat.eqb (length idps) nu && Nat.eqb (length (firstn nu perm)) nu &&
+  nodup_b (firstn nu perm) && forallb2 (local_pair_des_b range k neighbors) (firstn nu perm) idps.
+
+(* log = per iteration (shuffled array of POSITIONS, the (id, id) arguments of the distance callback) *)
+Definition spe_log_check_des (range : list nat) (global : bool) (N nu k : nat)
+           (neighbors : list (list nat)) (log : list (list nat * list (nat * nat))) : option nat :=
+  first_bad (fun sp => if global then global_iter_des_ok_b range N nu (fst sp) (snd sp)
+                       else local_iter_des_ok_b range N nu k neighbors (fst sp) (snd sp)) log 0.
